@@ -81,73 +81,35 @@ for _g in (True, False):
 
 
 # ------------------------------------------------------------------ the site ledger
-# (module, function, source text of the read) -> (class, remark); classes:
-#   wiring   the read fetches the guard itself from the namespace
-#   own      the object read is the namespace, the tag, its compiled arguments or another object of the renderer itself
-#   probe    protocol / existence probe of a value (hasattr, dunder or marker attributes); no client data flows out of it
-#            and the data read that follows goes through the guard
-#   guarded  client data read through the guard variable
-#   CLIENT   client data read directly -- a violation of the property (known findings carry a native witness)
-LEDGER = {
-    ('_DocumentTemplate', 'render_blocks_', "getattr(t, '__untaint__', None)"): ('probe', 'taint protocol of the value'),
-    ('_DocumentTemplate', 'safe_callable', "hasattr(ob, '__class__')"): ('probe', ''),
-    ('_DocumentTemplate', 'safe_callable', "hasattr(ob, '__call__')"): ('probe', ''),
-    ('_DocumentTemplate', 'getitem', "hasattr(e, '__render_with_namespace__')"): ('probe', 'namespace value protocol'),
-    ('_DocumentTemplate', 'getitem', "getattr(base, 'isDocTemp', False)"): ('probe', 'marker attribute'),
-    ('_DocumentTemplate', '__getitem__', 'self.cache.get(key, _marker)'): ('own', 'InstanceDict cache'),
-    ('DT_Util', 'namespace', "getattr(self, '__class__', None)"): ('own', ''),
-    ('DT_Util', 'render', "hasattr(v, '__render_with_namespace__')"): ('probe', ''),
-    ('DT_Util', 'render', "getattr(v, 'aq_base', v)"): ('probe', 'acquisition unwrapping'),
-    ('DT_Util', 'render', "getattr(vbase, 'isDocTemp', 0)"): ('probe', ''),
-    ('DT_Util', 'sequence_supports_subscription', "hasattr(obj, 'get')"): ('probe', ''),
-    ('DT_Util', 'sequence_supports_subscription', "hasattr(obj, 'keys')"): ('probe', ''),
-    ('DT_Util', 'sequence_supports_subscription', "hasattr(obj, '__getitem__')"): ('probe', ''),
-    ('DT_Util', 'sequence_supports_subscription', "hasattr(obj, '__len__')"): ('probe', ''),
-    ('DT_Util', '__getattr__', 'getattr(string, key)'): ('own', 'the string module'),
-    ('DT_Util', 'eval', "getattr(md, 'guarded_getattr', None)"): ('wiring', ''),
-    ('DT_Util', 'eval', "getattr(md, 'guarded_getitem', None)"): ('wiring', ''),
-    ('DT_Util', 'int_param', 'params.get(name, default)'): ('own', 'compiled tag parameters'),
-    ('DT_In', 'renderwb', "getattr(md, 'guarded_getitem', None)"): ('wiring', ''),
-    ('DT_In', 'renderwob', "getattr(md, 'guarded_getitem', None)"): ('wiring', ''),
-    ('DT_In', '__init__', "args.get('prefix')"): ('own', ''),
-    ('DT_In', 'renderwb', "params.get('prefix')"): ('own', ''),
-    ('DT_In', 'renderwob', "self.args.get('prefix')"): ('own', ''),
-    ('DT_In', 'sort_sequence', 'getattr(v, sort, None)'): ('CLIENT', 'DT_In.sort_sequence.getattr'),
-    ('DT_In', 'sort_sequence', 'getattr(v, sk, None)'): ('CLIENT', 'DT_In.sort_sequence.getattr.multi'),
-    ('DT_In', 'sort_sequence', 'v.get(sort)'): ('CLIENT', 'DT_In.sort_sequence.get'),
-    ('DT_In', 'sort_sequence', 'v.get(sk)'): ('CLIENT', 'DT_In.sort_sequence.get.multi'),
-    ('DT_InSV', 'value', 'getattr(item, name)'): ('CLIENT', 'DT_InSV.value.getattr'),
-    ('DT_InSV', 'value', 'item[name]'): ('CLIENT', 'DT_InSV.value.item'),
-    ('DT_InSV', 'statistics', 'getattr(item, name)'): ('CLIENT', 'DT_InSV.statistics.getattr'),
-    ('DT_InSV', 'statistics', 'item[name]'): ('CLIENT', 'DT_InSV.statistics.item'),
-    ('DT_InSV', '__getitem__', 'hasattr(self, suffix)'): ('own', 'sequence_variables helper methods'),
-    ('DT_InSV', '__getitem__', 'getattr(self, suffix)'): ('own', ''),
-    ('DT_Var', 'render', "getattr(md, 'guarded_getattr', None)"): ('wiring', ''),
-    ('DT_Var', 'render', 'hasattr(val, fmt)'): ('probe', 'followed by _get(val, fmt): guarded'),
-    ('DT_Var', 'render', "hasattr(sys, 'exc_info')"): ('own', ''),
-    ('DT_Var', 'render', '_get(val, fmt)'): ('guarded', 'method formats'),
-    ('DT_Var', 'render', 'val.absolute_url()'): ('CLIENT', 'DT_Var.render.absolute_url'),
-    ('DT_With', 'render', "hasattr(_md, 'guarded_getattr')"): ('wiring', ''),
-    ('DT_With', 'render', "hasattr(_md, 'guarded_getitem')"): ('wiring', ''),
-    ('TreeTag', 'try_call_attr', 'getattr(ob, attrname)'): ('CLIENT', 'TreeTag.try_call_attr'),
-    ('TreeTag', 'tpRenderTABLE', "getattr(md, 'guarded_getitem', None)"): ('wiring', ''),
-    ('TreeTag', 'tpRenderTABLE', 'hasattr(self, urlattr)'): ('probe', ''),
-    ('TreeTag', 'tpRenderTABLE', "hasattr(self, args['branches'])"): ('probe', "followed by get(self, args['branches']): guarded"),
-    ('TreeTag', 'tpRenderTABLE', "get(self, args['branches'])"): ('guarded', 'tree branches'),
-    ('TreeTag', 'tpRenderTABLE', 'getattr(v, sort)'): ('CLIENT', 'TreeTag.tpRenderTABLE.sort'),
-    ('TreeTag', 'tpRenderTABLE', "args.get('prefix')"): ('own', ''),
-    ('TreeTag', 'tpRenderTABLE', "args.get('nowrap')"): ('own', ''),
-    ('TreeTag', 'tpRender', "args.get('prefix')"): ('own', ''),
-    ('TreeTag', '__init__', "args.get('prefix')"): ('own', ''),
-    ('TreeTag', 'extract_id', 'hasattr(item, idattr)'): ('probe', ''),
-    ('TreeTag', 'extract_id', "getattr(item, '_p_oid', None)"): ('CLIENT', 'TreeTag.extract_id._p_oid'),
-}
-# reads that are not getattr / hasattr / .get( calls and therefore listed by text: they must still exist as written
-EXTRA_READS = {
-    ('DT_InSV', 'value'): ['item[name]'],
-    ('DT_InSV', 'statistics'): ['item[name]'],
-    ('DT_Var', 'render'): ['_get(val, fmt)', 'val.absolute_url()'],
-    ('TreeTag', 'tpRenderTABLE'): ["get(self, args['branches'])"],
+# Every getattr / hasattr / .get( call, every call of .absolute_url() and every subscript "local[parameter]" in the rendering
+# modules is enumerated from the AST on every run and classified by WHAT IT READS, not by how the code is spelled (variable
+# names, the enclosing helper function and the formatting of the call do not matter):
+#   probe    hasattr(...): an existence probe, no data flows out of it; getattr(x, '<protocol name>'): protocol / marker
+#            attributes of a value (taint protocol, isDocTemp, aq_base, ...) -- not client data
+#   wiring   getattr(namespace, 'guarded_getattr' / 'guarded_getitem'): the read fetches the guard itself
+#   own      getattr(self, <computed>) / getattr(<module>, ...) / self.<attr>.get(...) / <dict>.get('<constant key>'):
+#            the object read is the tag, the namespace helper, a module or a dictionary of compiled tag parameters
+#   CLIENT   anything else: an attribute / item whose NAME IS COMPUTED (or a non-protocol constant name) read directly from
+#            a value -- client data read without the guard.  The sites that exist on the unchanged tree are recorded known
+#            findings (by module, function, kind of read and ordinal among the reads of that kind in the function); any
+#            further one is a refuted obligation.
+PROTOCOL = {'__untaint__', '__class__', '__call__', '__render_with_namespace__', 'isDocTemp', 'aq_base', 'get', 'keys', '__getitem__',
+            '__len__', 'exc_info', '__name__', '__bases__', 'simple_form', 'blockContinuations'}
+GUARDS = {'guarded_getattr', 'guarded_getitem'}
+OWN_MODULES = {'string', 'sys', 'math', 'random', 'os', 're'}
+# (module, function, kind) -> [(class, remark / native witness site), ...] in source order
+KNOWN_SITES = {
+    ('DT_In', 'sort_sequence', 'getattr-dynamic'): [('CLIENT', 'DT_In.sort_sequence.getattr.multi'), ('CLIENT', 'DT_In.sort_sequence.getattr')],
+    ('DT_In', 'sort_sequence', 'get-dynamic'): [('CLIENT', 'DT_In.sort_sequence.get.multi'), ('CLIENT', 'DT_In.sort_sequence.get')],
+    ('DT_InSV', 'value', 'getattr-dynamic'): [('CLIENT', 'DT_InSV.value.getattr')],
+    ('DT_InSV', 'value', 'subscript-dynamic'): [('CLIENT', 'DT_InSV.value.item')],
+    ('DT_InSV', 'statistics', 'getattr-dynamic'): [('CLIENT', 'DT_InSV.statistics.getattr')],
+    ('DT_InSV', 'statistics', 'subscript-dynamic'): [('CLIENT', 'DT_InSV.statistics.item')],
+    ('DT_Var', 'render', 'call-absolute_url'): [('CLIENT', 'DT_Var.render.absolute_url'), ('CLIENT', 'DT_Var.render.absolute_url')],
+    ('TreeTag', 'try_call_attr', 'getattr-dynamic'): [('CLIENT', 'TreeTag.try_call_attr')],
+    ('TreeTag', 'tpRenderTABLE', 'getattr-dynamic'): [('CLIENT', 'TreeTag.tpRenderTABLE.sort')],
+    ('TreeTag', 'extract_id', 'getattr-_p_oid'): [('CLIENT', 'TreeTag.extract_id._p_oid')],
+    ('DT_Util', 'int_param', 'get-dynamic'): [('own', 'compiled tag parameters (the tag\'s own args dictionary, handed over by the renderer)')],
 }
 MODULES = {'_DocumentTemplate': 'DocumentTemplate/_DocumentTemplate.py', 'DT_Util': 'DocumentTemplate/DT_Util.py',
            'DT_In': 'DocumentTemplate/DT_In.py', 'DT_InSV': 'DocumentTemplate/DT_InSV.py', 'DT_Var': 'DocumentTemplate/DT_Var.py',
@@ -156,12 +118,49 @@ MODULES = {'_DocumentTemplate': 'DocumentTemplate/_DocumentTemplate.py', 'DT_Uti
            'TreeTag': 'TreeDisplay/TreeTag.py'}
 
 
+def known_client_sites():
+    """oid -> native witness site, for the recorded known findings"""
+    out = {}
+    for (m, f, kind), entries in KNOWN_SITES.items():
+        for i, (cls, rem) in enumerate(entries):
+            if cls == 'CLIENT':
+                out['C05.site.%s.%s.%s#%d' % (m, f, kind, i + 1)] = rem
+    return out
+
+
+def _classify_read(c, params):
+    """(kind, class or None, remark) of one AST node; kind None: not a read the ledger looks at"""
+    import ast
+    if isinstance(c, ast.Call) and isinstance(c.func, ast.Name) and c.func.id == 'hasattr' and len(c.args) == 2:
+        return 'hasattr', 'probe', 'existence probe'
+    if isinstance(c, ast.Call) and isinstance(c.func, ast.Name) and c.func.id == 'getattr' and len(c.args) >= 2:
+        recv, name = c.args[0], c.args[1]
+        if isinstance(name, ast.Constant) and isinstance(name.value, str):
+            if name.value in GUARDS:
+                return 'getattr-guard', 'wiring', 'fetches the guard from the namespace'
+            if name.value in PROTOCOL:
+                return 'getattr-protocol', 'probe', 'protocol / marker attribute %s' % name.value
+            return 'getattr-' + name.value, None, 'attribute %r read with plain getattr' % name.value
+        if isinstance(recv, ast.Name) and (recv.id == 'self' or recv.id in OWN_MODULES):
+            return 'getattr-own', 'own', 'computed attribute of the tag / helper object itself or of a module'
+        return 'getattr-dynamic', None, 'attribute with a computed name read with plain getattr'
+    if isinstance(c, ast.Call) and isinstance(c.func, ast.Attribute) and c.func.attr == 'get' and c.args:
+        recv, key = c.func.value, c.args[0]
+        if isinstance(key, ast.Constant):
+            return 'get-constant', 'own', 'dictionary of compiled tag parameters, constant key'
+        if isinstance(recv, ast.Attribute) and isinstance(recv.value, ast.Name) and recv.value.id == 'self':
+            return 'get-own', 'own', 'dictionary held by the object itself'
+        return 'get-dynamic', None, 'item with a computed key read with .get()'
+    if isinstance(c, ast.Call) and isinstance(c.func, ast.Attribute) and c.func.attr == 'absolute_url':
+        return 'call-absolute_url', None, 'absolute_url() of a value called directly'
+    return None, None, None
+
+
 def site_obligations():
     import ast
     import os
     from pyvc.engine import REPO_SRC
     out = []
-    seen = set()
 
     def ob(oid, status, detail):
         out.append(dict(oid='C05.site.' + oid, kind='structural', status=status, paths=1, backends=['ast'], ms=0, model=None,
@@ -169,37 +168,39 @@ def site_obligations():
     for m, rel in MODULES.items():
         tree = ast.parse(open(os.path.join(REPO_SRC, rel)).read())
         for fn in [n for n in ast.walk(tree) if isinstance(n, ast.FunctionDef)]:
-            texts = []
-            for c in ast.walk(fn):
-                if isinstance(c, ast.Call) and isinstance(c.func, ast.Name) and c.func.id in ('getattr', 'hasattr'):
-                    texts.append(ast.unparse(c))
-                elif isinstance(c, ast.Call) and isinstance(c.func, ast.Attribute) and c.func.attr == 'get':
-                    texts.append(ast.unparse(c))
-            src = ast.unparse(fn)
-            for t in EXTRA_READS.get((m, fn.name), []):
-                if t in src:
-                    texts.append(t)
-            ordn = {}
-            for t in texts:
-                key = (m, fn.name, t)
-                ordn[t] = ordn.get(t, 0) + 1
-                oid = '%s.%s.%s%s' % (m, fn.name, t.replace(' ', ''), '' if ordn[t] == 1 else '#%d' % ordn[t])
-                if oid in seen:
+            params = {a.arg for a in fn.args.args + fn.args.kwonlyargs}
+            nested = {id(x) for sub in ast.walk(fn) if isinstance(sub, ast.FunctionDef) and sub is not fn for x in ast.walk(sub)}
+            counts = {}
+            nodes = [c for c in ast.walk(fn) if id(c) not in nested]
+            # the idiom "item[name] if mapping else getattr(item, name)": a subscript with the same receiver and key as a
+            # computed getattr in the same function reads the same client data
+            pairs = {(c.args[0].id, c.args[1].id) for c in nodes if isinstance(c, ast.Call) and isinstance(c.func, ast.Name) and c.func.id == 'getattr'
+                     and len(c.args) >= 2 and isinstance(c.args[0], ast.Name) and isinstance(c.args[1], ast.Name)
+                     and c.args[0].id != 'self' and c.args[0].id not in OWN_MODULES}
+            nodes.sort(key=lambda c: (getattr(c, 'lineno', 0), getattr(c, 'col_offset', 0)))
+            for c in nodes:
+                kind, cls, rem = _classify_read(c, params)
+                if kind is None and isinstance(c, ast.Subscript) and isinstance(c.ctx, ast.Load) and isinstance(c.value, ast.Name) \
+                        and isinstance(c.slice, ast.Name) and (c.value.id, c.slice.id) in pairs:
+                    kind, cls, rem = 'subscript-dynamic', None, 'item named by a parameter read with a plain subscript'
+                if kind is None:
                     continue
-                seen.add(oid)
-                cls = LEDGER.get(key)
-                if cls is None:
-                    ob(oid, 'refuted', 'unclassified read in rendering code: %s in %s.%s -- every read of a value must be a guard-wiring, own-object, '
-                                       'probe or guarded read' % (t, m, fn.name))
-                elif cls[0] == 'CLIENT':
-                    ob(oid, 'refuted', 'client data is read without the guard: %s in %s.%s [%s]' % (t, m, fn.name, cls[1]))
+                counts[kind] = counts.get(kind, 0) + 1
+                oid = '%s.%s.%s#%d' % (m, fn.name, kind, counts[kind])
+                text = ast.unparse(c)
+                if cls is not None:
+                    ob(oid, 'discharged', '%s: %s (%s)' % (text, cls, rem))
+                    continue
+                known = KNOWN_SITES.get((m, fn.name, kind), [])
+                if counts[kind] <= len(known):
+                    kc, krem = known[counts[kind] - 1]
+                    if kc == 'CLIENT':
+                        ob(oid, 'refuted', 'client data is read without the guard: %s in %s.%s [%s]' % (text, m, fn.name, krem))
+                    else:
+                        ob(oid, 'discharged', '%s: %s (%s)' % (text, kc, krem))
                 else:
-                    ob(oid, 'discharged', '%s: %s %s' % (t, cls[0], cls[1]))
-    for key in LEDGER:
-        m, f, t = key
-        oid = '%s.%s.%s' % (m, f, t.replace(' ', ''))
-        if oid not in seen:
-            ob(oid, 'refuted', 'the ledger names a read that no longer exists as written: %s in %s.%s' % (t, m, f))
+                    ob(oid, 'refuted', 'a read of a value that does not go through the guard and is not a probe, guard wiring or a read of the '
+                                       'renderer\'s own objects: %s in %s.%s (%s)' % (text, m, fn.name, rem))
     return out
 
 
